@@ -44,13 +44,17 @@ TEXTS = [
     "from b import C\nclass D(C):\n    u = 1\nd = D()\n",
     "x = 5\ndef g(p):\n    return p + x\n",
     "def broken(:\n",
+    "import pq.n\nv = pq.n\nw = pq\n",
+    "from pq import n\nk = n\n",
 ]
 NAMES = ["a", "b", "c", "d", "e"]
 
 
 @st.composite
 def cases(draw):
-    tree = {"a.py": TEXTS[0], "b.py": TEXTS[3], "c.py": TEXTS[4], "pk/": None, "pk/__init__.py": "", "pk/m.py": TEXTS[2], "spare.txt": TEXTS[0]}
+    tree = {"a.py": TEXTS[0], "b.py": TEXTS[3], "c.py": TEXTS[4], "pk/": None, "pk/__init__.py": "", "pk/m.py": TEXTS[2], "spare.txt": TEXTS[0],
+            # a second package, imported by e.py: files move between two packages that are both cached
+            "pq/": None, "pq/__init__.py": "", "pq/n.py": TEXTS[1], "e.py": TEXTS[12]}
     if draw(st.booleans()):
         tree["d.py"] = draw(st.sampled_from(TEXTS[:11]))
     n = draw(st.integers(6, 16))
@@ -151,7 +155,7 @@ def observe(project, root, which=None):
     obs["files"] = files
     obs["pyfiles"] = _safe(lambda: sorted(r.path for r in project.get_python_files()))
     mods = {}
-    for name in NAMES + ["pk", "pk.m", "pk.n", "sub", "sub.a", "zz"]:
+    for name in NAMES + ["pk", "pk.m", "pk.n", "pq", "pq.n", "pq.m", "sub", "sub.a", "zz"]:
         def fm(name=name):
             r = project.find_module(name)
             return r.path if r is not None else None
@@ -238,7 +242,7 @@ def _fresh_autoimport_image(root):
     copy = core.fresh_dir("c13ai")
     try:
         fsmodel.write_tree(copy, fsmodel.snapshot(root))
-        p = Project(copy, ropefolder=None)
+        p = Project(copy, ropefolder=None, ignored_resources=["*.txt"])
         try:
             ai = AutoImport(p, observe=False, memory=True)
             try:
@@ -269,7 +273,7 @@ def evaluate(case, env):
         clock[0] += 5
         os.utime(path, (clock[0], clock[0]))
 
-    project = Project(root, ropefolder=None)
+    project = Project(root, ropefolder=None, ignored_resources=["*.txt"])
     ai = None
     if case.get("autoimport"):
         import rope.contrib.autoimport.sqlite as aisql
@@ -493,7 +497,7 @@ def evaluate(case, env):
             except Exception as e:
                 out.violation("C13:observe_warm_raised:%s:%s" % (kind, type(e).__name__), repr(e)[:300], sub)
                 break
-            fresh_p = Project(root, ropefolder=None)
+            fresh_p = Project(root, ropefolder=None, ignored_resources=["*.txt"])
             try:
                 try:
                     fresh = observe(fresh_p, root)
